@@ -429,7 +429,22 @@ def r3(ctx, cfg):
         ctx.ob(R, key, "over-undelegation-rejected-before-subtraction", guard_ok and n == 1, "shares.stake -= amount is not guarded by !(amount > shares.stake) (sites: %d)" % n, fn=f,
                sample="guard: !(amount_dec > shares.stake)")
         # missing delegation is an error when subtracting
-        ok = any(t["callee"]["key"] == "std::option::Option::ok_or_else" for b, t in f.calls())
+        # (`if sub { shares.ok_or_else(..)? }` or `match shares { Some(s) => s, None if sub => bail!(..), None => default }`)
+        def is_shares(o):
+            o = peel(o)
+            return o[0] == "ok" and peel(o[1])[0] == "call" and peel(o[1])[1] == "cw_storage_plus::Map::may_load" and peel(peel(o[1])[2][0]) == STAKES
+        pres, absn = q.presence_edges(P, f, is_shares)
+        wblocks = [b for b, t in writes]
+        ok = False
+        for e in absn:
+            conds = q.dominating_conditions(P, f, e)
+            sub_true = any(c[0] == "bool" and c[1][0] == "opaque" and is_param(c[1][1][0], "sub") and c[1][2] is True for ee, c in conds)
+            if sub_true and q.only_errors_from(P, f, e, wblocks):
+                ok = True
+            # match guard: the absent edge leads straight to a test of `sub`
+            for g in q.guards(P, f):
+                if g[1] == "opaque" and is_param(g[2][0], "sub") and cf.dominates(e, g[0]) and q.only_errors_from(P, f, g[3], wblocks):
+                    ok = True
         ctx.ob(R, key, "missing-delegation-is-an-error", ok, "update_stake(sub) does not reject a missing delegation", fn=f, sample="shares.ok_or_else(..)?")
 
 
